@@ -5,7 +5,7 @@
     (clock reading, operation): DISCOVER, REQUEST, DECLINE, RELEASE, static
     add / update / remove, time passing, restart) from the empty table. *)
 From Coq Require Import List ZArith NArith Permutation.
-From AGH Require Import Base.Run Model.Dhcp4 Proofs.Dhcp4 Proofs.Dhcp4Names.
+From AGH Require Import Base.Run Model.Dhcp4 Proofs.Dhcp4 Proofs.Dhcp4Names Proofs.Dhcp4Disk.
 Import ListNotations.
 Local Open Scope N_scope.
 
@@ -86,6 +86,44 @@ Print Assumptions C10_persistence.
 Theorem C10_names_stable : forall c h, NamesStable (leases (run c h empty_state)).
 Proof. exact names_stable_reachable. Qed.
 Print Assumptions C10_names_stable.
+
+(** After every operation of any history (every prefix of a history is a
+    history) the file lists exactly the leases in memory, each once: every
+    path that changes the table ends in a store. *)
+Theorem C10_file_current : forall c h,
+  let s := run c h empty_state in
+  Permutation (disk s) (map db_lease (leases s)).
+Proof. exact file_current_reachable. Qed.
+Print Assumptions C10_file_current.
+
+(** The one path of the model that returns after a change without storing
+    (UpdateStaticLease: old lease removed, addLease fails) cannot be taken
+    from a state that satisfies the invariant. *)
+Theorem C10_update_no_late_failure : forall c mac ip host s fi found h s1,
+  FullInv c s ->
+  find_lease mac (leases s) = Some (fi, found) ->
+  validate_static c mac ip host s = Some h ->
+  rm_lease c (l_ip found) (l_mac found) (l_host found) s = Some s1 ->
+  exists s2, add_lease c (Lease ip mac h true exp_zero) s1 = Some s2.
+Proof. exact static_update_no_late_failure. Qed.
+Print Assumptions C10_update_no_late_failure.
+
+(** Reservations, as (address, hardware address, hostname), change only
+    through the static-lease operations: messages and the passing of time
+    leave them exactly as they are in any state, a restart in any reachable
+    state restores the same ones. *)
+Theorem C10_static_only_via_api : forall c h now o,
+  let s := run c h empty_state in
+  static_op o = false ->
+  Permutation (statics (leases (fst (step c s now o)))) (statics (leases s)).
+Proof. exact static_only_via_api. Qed.
+Print Assumptions C10_static_only_via_api.
+
+Theorem C10_messages_keep_statics : forall c s now o,
+  static_op o = false -> o <> ORestart ->
+  statics (leases (fst (step c s now o))) = statics (leases s).
+Proof. exact message_keeps_statics. Qed.
+Print Assumptions C10_messages_keep_statics.
 
 (** Non-vacuity: a valid configuration and a history that reaches a table
     with a static lease, two dynamic leases with names, a free pool address
